@@ -30,6 +30,10 @@ RULE = ("generated packages per the quantifier: definer module, one re-exporter 
         "using the object as base class, annotation and docstring cross-reference; every reachable sibling order. For every "
         "order the final registry/alias state is dumped and expandName/resolveName/find_object are compared with the Lean "
         "Names model; the direct oracle checks 'one documented copy' and 'every reference reaches it' on the real System. "
+        "Hunter round: nested packages with a consumer NEXT TO the package (it may be analysed before the package), a definer that "
+        "imports its own package above its definitions, an object named like its module, a second name bound in the definer, "
+        "references written inside objects that are re-exported themselves, an annotated __all__; all depth-first orders; "
+        "corpus/C07 (witnesses of the open findings) runs first. "
         "Non-trivial = the project has a consumer that imports from the defining module or a renamed/star re-export.")
 ASSUMPTIONS = ["names contain no '.' in the compared queries (paths = dotted strings)",
                "the class linearisation used by Class.find is taken from the real system (C05 covers it)"]
@@ -63,6 +67,8 @@ def gen_project(rng) -> Tuple[List[Unit], Dict[str, Any]]:
     # module annotated with the object and re-exported next to it; a consumer's variable re-exported by one more module
     companion = (not b_all) and rng.random() < 0.25
     pub = rng.random() < 0.2
+    # (hunter, noticed) the re-exporter lists the name in an ANNOTATED assignment: `__all__: list = ['X']`
+    all_annotated = rng.random() < 0.08
     P = "top.pkg" if nested else "pkg"
     dmod = "X" if same_name else "_b"
     D = P + "." + dmod                    # the defining module
@@ -112,6 +118,8 @@ def gen_project(rng) -> Tuple[List[Unit], Dict[str, Any]]:
         if imp != "star":
             reexp_src.insert(1, rng.choice(["from .%s import inst" % dmod, "from %s import inst" % D]))
         reexp_src[-1] = "__all__ = [%r, 'inst']" % exported
+    if all_annotated:
+        reexp_src[-1] = reexp_src[-1].replace("__all__ =", "__all__: list =")
     if cyclic:
         reexp_src.append("API_CONST = 1")
     if back_import:
@@ -173,7 +181,8 @@ def gen_project(rng) -> Tuple[List[Unit], Dict[str, Any]]:
     meta = {"kind": kind, "import": imp, "objkind": objkind, "exported": exported, "reexporter": reexp_q, "extra_root": extra_root,
             "definer_all": b_all, "definer_imports_reexporter": cyclic, "consumers": consumers, "imported_twice": twice, "definer_also_imports": speedups,
             "definer": D, "defined_as": cn, "package": P, "nested": nested, "definer_imports_package_first": back_import,
-            "alias_in_definer": alias_def, "named_like_module": same_name, "companion": companion, "published_var": pub}
+            "alias_in_definer": alias_def, "named_like_module": same_name, "companion": companion, "published_var": pub,
+            "all_annotated": all_annotated}
     return units + sibs + outer, meta
 
 
@@ -330,6 +339,10 @@ def oracle(ctx, system, clk, meta, order, payload) -> None:
             # the defining module was ENTERED before the package it belongs to (Python never does that), and it imports
             # its package: the package's re-export ran while the definer had not reached the definition
             why = ":definer-entered-before-its-package"
+        rm = system.allobjects.get(meta["reexporter"])
+        if moved_expected and meta.get("all_annotated") and rm is not None and rm.all is None and not why:
+            # the re-exporter's `__all__: list = [...]` was not read at all
+            why = ":annotated-__all__-not-read"
         ctx.fail("reexport-dropped" + why if why else sigbase + ":not-at-exported-name", payload,
                  f"{target_name} is not the re-exported object (order {order}; modules entered in the order {clk.entered}; "
                  f"documented as {[d.fullName() for d in docs]})")
@@ -473,11 +486,27 @@ def ln_or(name, c):
     return name if name in c["locals"] else c["locals"][0] + ".m"
 
 
+def load_corpus() -> List[Tuple[List[Unit], Dict[str, Any]]]:
+    """corpus/C07/*.json: generator outputs kept verbatim (inputs of the open findings), so that seeing them does not
+    depend on the seed; `units` maps qualified names to sources in the order the generator listed them"""
+    import json
+    from pathlib import Path
+    out = []
+    for f in sorted((Path(__file__).resolve().parents[2] / "corpus" / "C07").glob("*.json")):
+        d = json.loads(f.read_text())
+        qs = list(d["units"])
+        units = [Unit(q, any(o.startswith(q + ".") for o in qs), d["units"][q], q.rpartition(".")[0] or None) for q in qs]
+        out.append((units, d["meta"]))
+    return out
+
+
 def run(ctx: Ctx) -> None:
     nproj = 120 if ctx.quick else 2500
     reqs, impls, pay = [], [], []
-    for i in range(nproj):
-        units, meta = gen_project(ctx.rng)
+    corpus = load_corpus()
+    ctx.count("corpus-projects", len(corpus)) if corpus else None
+    for i in range(-len(corpus), nproj):
+        units, meta = corpus[i] if i < 0 else gen_project(ctx.rng)
         ords = orders(units, ctx.rng, 6 if ctx.quick else 24)
         nontriv = any(c["form"] != "reexporter" for c in meta["consumers"]) or meta["import"] in ("renamed", "star")
         for od in ords:
